@@ -7,4 +7,5 @@ MCProg == (1 :> <<[api |-> "set", key |-> "k1", val |-> "a", chunks |-> 1]>>) @@
 MCPre == {}
 NoDebris == {}
 NoKeyShards == <<>>
+NoPreRO == {}
 ====
